@@ -247,7 +247,7 @@ func defaultBudget(tier string) int {
 	if tier == "quick" {
 		return 240
 	}
-	return 1800
+	return 600
 }
 
 func runFamily(spec *Spec, f *Family, variant, bin, tier string, seed int64) *famResult {
